@@ -446,6 +446,30 @@ def interp_rules(rng, doc):
     return text, {'interp0': ptr, 'interp1': ptr, 'interp2': ptr}, doc
 
 
+def embedded_rules(doc):
+    """strings whose text is itself a document (a policy kept as JSON text, a list, YAML, a number): they are scalars of the input;
+    a query that continues below one stops there, and everything reported is the string at its own path.
+    Returns (rules text, {rule name: pointer of the string}, document)"""
+    if 'ZzEmb' in doc:
+        return '', {}, doc
+    doc = dict(doc)
+    doc['ZzEmb'] = {'obj': json.dumps({'Version': '2012-10-17', 'Statement': [{'Effect': 'Allow', 'Action': '*'}], 'a': 1}),
+                    'compact': '{"a":{"b":[1,2]}}', 'lst': '[1, {"a": 2}]', 'yml': 'a: 1', 'num': '12', 'empty': '{}',
+                    'holder': [{'Policy': '{"Id": "x", "Statement": []}'}]}
+    text = ('rule emb0 {\n  ZzEmb.obj.Statement[*].Action == 987654\n}\n'
+            'rule emb1 {\n  ZzEmb.obj.a == 987654\n}\n'
+            'rule emb2 {\n  ZzEmb.obj.Missing exists\n}\n'
+            'rule emb3 {\n  ZzEmb.compact.a.b[0] == 987654\n}\n'
+            'rule emb4 {\n  ZzEmb.lst[0] == 987654\n}\n'
+            'rule emb5 {\n  ZzEmb.yml.a == 987654\n}\n'
+            'rule emb6 {\n  ZzEmb.empty.k exists\n}\n'
+            'rule emb7 {\n  ZzEmb.holder[*].Policy.Id == 987654\n}\n'
+            'rule emb8 {\n  ZzEmb.obj {\n    a == 987654\n  }\n}\n')
+    want = {'emb0': '/ZzEmb/obj', 'emb1': '/ZzEmb/obj', 'emb2': '/ZzEmb/obj', 'emb3': '/ZzEmb/compact', 'emb4': '/ZzEmb/lst', 'emb5': '/ZzEmb/yml',
+            'emb6': '/ZzEmb/empty', 'emb7': '/ZzEmb/holder/0/Policy', 'emb8': '/ZzEmb/obj'}
+    return text, want, doc
+
+
 def reported_paths(ctx, n):
     rng = random.Random(ctx.seed * 401 + 11)
     jobs, scen = [], []
@@ -466,6 +490,10 @@ def reported_paths(ctx, n):
         if k % 2 == 1:
             itext, iwant, doc = interp_rules(random.Random(ctx.seed * 7919 + k), doc)
             rules += itext
+        if k % 2 == 0:
+            etext, ewant, doc = embedded_rules(doc)
+            rules += etext
+            iwant = dict(iwant, **ewant)           # same oracle: every unresolved point of the rule is the named pointer
         name, em = EMITTERS[k % len(EMITTERS)]
         text, pos = em(rng, doc)
         d = os.path.join(ctx.wd, 'q%d' % k)
@@ -531,7 +559,7 @@ def reported_paths(ctx, n):
                 ninterp += 1
                 bad = [u['traversed_to']['path'] for u in urs if u['traversed_to']['path'] != sc['interp'][nm]]
                 if not urs or bad:
-                    ctx.failing('a struct at %s indexed by the values of a variable, one of which is not a key: the unresolved point is reported at %s' %
+                    ctx.failing('a query that cannot continue below %s (a struct indexed by a name that is not a key / a string whose text is a document): the unresolved point is reported at %s' %
                                 (sc['interp'][nm], bad or 'no unresolved value at all'), dict(info, rule=nm), found=True)
         for nm in sc['interp']:
             if nm not in [cr.get('Rule', {}).get('name') for cr in rep['not_compliant']]:
